@@ -355,10 +355,9 @@ def _k5_job(job):
     key = P.find_fn('ironplcc', 'lsp_project::map_label')
     b = [z3.BitVec('c%d' % i, 8) for i in range(N)]
     valid = LC.utf8_valid(b)[0] if b else z3.BoolVal(True)
-    sfields = [f for f, _ in P.structs.get('Source', [])]
-    if sfields[:2] != ['file_id', 'data']: part.inconc('unexpected layout of source::Source: %r' % sfields); return part
     def find_stub(M_, fr, callee, args):
-        return some(Ref(Cell(Agg('Source', [Agg('FileId', [Str('f')]), Str(list(b))] + [none()] * (len(sfields) - 2)))))
+        from . import lspcommon as LSP_
+        return some(Ref(Cell(LSP_.new_source(M_, P, 'f', Str(list(b))))))
     M = Machine(P, stubs={r'project::Project>::find$': find_stub,
                           r'lsp_types::Position::new$': lambda M_, fr, c, a: Agg('Position', [a[0], a[1]]),
                           r'lsp_types::Range::new$': lambda M_, fr, c, a: Agg('Range', [a[0], a[1]])})
@@ -486,7 +485,7 @@ def k6(ctx, kr):
                 k = 0 if M.branch(v == 0) else (1 if M.branch(v == 1) else 2)
                 sel.append(k)
             st['sel'] = sel
-            srcs = VecV([Agg('()', [Agg('FileId', [Str(f)]), LSP.mkstruct(P, 'Source', file_id=Agg('FileId', [Str(f)]), data=Str('text of %s ' % f * 4), library=none())]) for f in FILES])
+            srcs = VecV([Agg('()', [Agg('FileId', [Str(f)]), LSP.new_source(M, P, f, 'text of %s ' % f * 4)]) for f in FILES])
             project = Ref(Cell(Agg('project::FileBackedProject', [srcs])))
             labels = [label(FILES[k], 3 + 5 * j, 6 + 5 * j, 'label%d' % j) for j, k in enumerate(sel)]
             d = LSP.mkstruct(P, 'Diagnostic', code=Str('P0007'), description=Str('desc'), primary=labels[0], described=VecV(), secondary=VecV(labels[1:]))
